@@ -7,6 +7,7 @@
   Model: VrlModel/{Kind,KindOps,KindCrud}.lean. Helper lemmas: VrlProofs/Lemmas/Kind*.lean.
 -/
 import VrlProofs.Lemmas.KindGet
+import VrlProofs.Lemmas.KindUnion
 
 namespace C19
 open Spec
@@ -51,5 +52,35 @@ theorem negUnknown_false_of_nonNeg : (p : Path) → (K : Kind) → Spec.nonNegPa
       cases K.array with
       | none => rfl
       | some c => simp [hi]
+
+/-- **A union contains every member of its operands**, for kinds whose known maps are key-sorted
+    (`BTreeMap`) and whose `Infinite` unknowns are all `any` (`unionClass = none`). Outside that class
+    `Unknown::merge` lets an `Infinite` (json) unknown overwrite an `Exact` one and the law is false
+    (`W.witness_union_inf_over_exact`). -/
+theorem union_sound_partial (v : Value) (A B : Kind) (sA : A.SortedK = true) (sB : B.SortedK = true)
+    (hc : unionClass A B = .none) : unionLawM v A B = true := by
+  have hi : A.hasNonAnyInf = false ∧ B.hasNonAnyInf = false := by
+    unfold unionClass at hc
+    split at hc
+    · cases hc
+    · rename_i h; simpa using h
+  unfold unionLawM unionLaw Kind.union Kind.mergeKeep
+  have hs := Spec.mergeKeepF_sound (Kind.fuel A B)
+  cases hA : mem v A with
+  | true => simp [hs.left A B v sA sB hi.1 hi.2 hA]
+  | false =>
+    cases hB : mem v B with
+    | true => simp [hs.right A B v sA sB hi.1 hi.2 hB]
+    | false => rfl
+
+theorem mem_union_left (v : Value) (A B : Kind) (sA : A.SortedK = true) (sB : B.SortedK = true)
+    (iA : A.hasNonAnyInf = false) (iB : B.hasNonAnyInf = false) (h : mem v A = true) :
+    mem v (A.union B) = true :=
+  (Spec.mergeKeepF_sound _).left A B v sA sB iA iB h
+
+theorem mem_union_right (v : Value) (A B : Kind) (sA : A.SortedK = true) (sB : B.SortedK = true)
+    (iA : A.hasNonAnyInf = false) (iB : B.hasNonAnyInf = false) (h : mem v B = true) :
+    mem v (A.union B) = true :=
+  (Spec.mergeKeepF_sound _).right A B v sA sB iA iB h
 
 end C19
